@@ -46,5 +46,7 @@ def msgFieldBig : Nat := 6
 def maxSize : Nat := 2147483647
 
 def protocolLine : String := "SpecMPX/1\n"
+/-- conn_reader.go: bytes allocated ahead of the received data when reading a frame -/
+def maxReadChunk : Nat := 1048576
 
 end SpecVerif.Pinned
